@@ -302,11 +302,11 @@ def _register():
         eos="gamma", njumps=3, gamma=lambda c: 3.0))
     FAMILIES.append(fam(
         "Mader", "mader.timmes.Mader",
-        {"p_cj": [3.0e11, 1.0e11], "d_cj": [8.0e5, 5.0e5], "gamma": [3.0, 2.0, 2.5], "u_piston": [0.0, 2.0e4, 5.0e4]},
+        {"p_cj": [3.0e11, 1.0e11], "d_cj": [8.0e5, 5.0e5], "gamma": [3.0, 2.0, 2.5, 3.5], "u_piston": [0.0, 2.0e4, 5.0e4, -2.0e4]},
         # the last, very early time makes small positive time NUMBERS reachable under a change of the time unit (seeded
         # change S2-C08-2: an absolute tolerance in the t = 0 guard)
         times=lambda c: [2.0e-6, 4.0e-6, 6.25e-6, 5.0e-8],
-        domain=lambda c, t: (0.0, c["d_cj"] * t), eos="mader", njumps=0, tol=1e-4,
+        domain=lambda c, t: (0.0, c["d_cj"] * t), eos="mader", njumps=0, tol=1e-4, quickK=2, maxK=2,      # gamma != 3 AND u_piston != 0 (S3-C03-3)
         points=lambda c, t, s: (np.linspace(0.0, c["d_cj"] * t, 401)[:-1] + 0.5 * c["d_cj"] * t / 400, 0, 0)))
     FAMILIES.append(fam(
         "SDRZ", "sdrz.sdrz.SteadyDetonationReactionZone",
